@@ -5,6 +5,7 @@ import ast
 
 from vlib.anchoring import Site, Taint, find_sites
 from vlib.core import AnalysisError, Report
+from vlib.norm import Expander
 from vlib.srcindex import SourceIndex, attr_chain, unparse
 
 EXPLANATION = (
@@ -31,10 +32,10 @@ NOT_IDENT_BASES = {'full_path', '_full_path'}
 # frozen triage: unanchored sinks on name-carrying values that are correct as written, one reason each
 EXEMPT = {
 	'rogw/tranp/syntax/node/definition/accessible.py:to_accessor': "Python's own _/__ naming convention is spelling-defined; the property's renaming excludes it (fresh names keep the underscore class)",
-	'rogw/tranp/dsn/dsn.py:DSN.relativefy:origin.split(starts)': 'guarded by the anchored startswith(f"{starts}{delimiter}") test on the line before; every caller passes grammar-tag paths rooted at file_input (Entrypoint.whole_by, EntryPath.relativefy, ClassDomainNaming.__namespace)',
-	'rogw/tranp/semantics/finder.py:SymbolFinder.__allow_scope:len(node.scope) <= len(scope.dsn)': 'scope.dsn is by construction (SymbolFinder.__make_scopes) a dotted prefix of node.scope, so the length comparison is equivalent to equality of the two scopes',
-	'rogw/tranp/implements/cpp/transpiler/py2cpp.py:Py2Cpp.proc_move_assign_single:node.value.calls.tokens.startswith(Embed.static.__qualname__)': 'compares with the tranp-reserved decorator path Embed.static; members of the reserved Embed namespace are not user identifiers',
-	'rogw/tranp/implements/cpp/transpiler/py2cpp.py:Py2Cpp.on_import:module_path.startswith(in_import.replace(\'/\', \'.\'))': 'module paths are file-system locations matched against configured include directory prefixes (entries end with "/" in example/config.yml); the renaming of the property covers identifiers inside modules, not module file names',
+	'rogw/tranp/dsn/dsn.py:DSN.relativefy:split:origin': 'guarded by the anchored startswith(f"{starts}{delimiter}") test on the line before; every caller passes grammar-tag paths rooted at file_input (Entrypoint.whole_by, EntryPath.relativefy, ClassDomainNaming.__namespace)',
+	'rogw/tranp/semantics/finder.py:SymbolFinder.__allow_scope:lencmp:node.scope': 'scope.dsn is by construction (SymbolFinder.__make_scopes) a dotted prefix of node.scope, so the length comparison is equivalent to equality of the two scopes',
+	'rogw/tranp/implements/cpp/transpiler/py2cpp.py:Py2Cpp.proc_move_assign_single:prefix:node.value.calls.tokens': 'compares with the tranp-reserved decorator path Embed.static; members of the reserved Embed namespace are not user identifiers',
+	'rogw/tranp/implements/cpp/transpiler/py2cpp.py:Py2Cpp.on_import:prefix:node.import_path.tokens': 'module paths are file-system locations matched against configured include directory prefixes (entries end with "/" in example/config.yml); the renaming of the property covers identifiers inside modules, not module file names',
 }
 
 
@@ -110,12 +111,14 @@ def run(rep: Report, tier: str) -> None:
 				if s.anchored:
 					r.ok(s.key, where, fragment=s.text)
 					continue
-				ex = next((k for k in EXEMPT if s.key == k or s.key.startswith(k + ':') or (k.count(':') == 1 and s.key.startswith(k))), None)
+				# triage keys name the function, the kind of test and the alias-expanded receiver (not the local spelling of the expression)
+				xk = f'{rel}:{q}:{s.kind}:{Expander(f).src(s.recv) if s.recv is not None else ""}'
+				ex = next((k for k in EXEMPT if xk == k or (k.count(':') == 1 and xk.startswith(k + ':'))), None)
 				if ex is not None:
 					used.add(ex)
 					r.ok(s.key, where, message=f'exempt: {EXEMPT[ex]}', fragment=s.text)
 					continue
-				r.violate(s.key, where, f'{s.kind} test `{s.text}` on a name-carrying string ({", ".join(sorted(s.labels))}) is not anchored on a separator: its outcome changes under a consistent renaming of user identifiers (a name that merely starts/ends with or contains the compared text matches)', s.text)
+				r.violate(s.key, where, f'[{xk}] {s.kind} test `{s.text}` on a name-carrying string ({", ".join(sorted(s.labels))}) is not anchored on a separator: its outcome changes under a consistent renaming of user identifiers (a name that merely starts/ends with or contains the compared text matches)', s.text)
 	for k in sorted(set(EXEMPT) - used):
 		if tier == 'thorough' or not k.startswith('rogw/tranp/syntax/node/definition/accessible.py'):
 			r.note(f'triage entry matches no site any more: {k}')
